@@ -482,7 +482,7 @@ func (e *Engine) ExecMgmtCmd(module string, cmd string, args any) error {
 	if err != nil {
 		return err
 	}
-	ch := make(chan error)
+	ch := make(chan error, 1) // the callback may run after this call has returned (failed send): it must never block
 	err = e.Express(interest, func(args ndn.ExpressCallbackArgs) {
 		if args.Result == ndn.InterestResultNack {
 			ch <- fmt.Errorf("nack received: %v", args.NackReason)
